@@ -173,6 +173,20 @@ def discriminator_clash_shapes():
     return out
 
 
+def group_collision_shapes():
+    """two tagged values at the same path below two fields of one stage: their dependency groups would be one node.
+    Invalid - every time, whatever order the fields are visited in"""
+    from vlib import opt
+    out = []
+    a = {'kind': 'plugin', 'pstep': 'work', 'fields': {'input': tmap({'id': lit('a')})}}
+    for w1, w2 in ((True, False), (False, True), (True, True)):
+        b = {'kind': 'plugin', 'pstep': 'work', 'fields': {
+            'input': tmap({'id': lit('b'), 'deps': tmap({'g': opt('steps.a.outputs.success', w1)})}),
+            'wait_for': tmap({'deps': tmap({'g': opt('steps.a.outputs.alt', w2)})})}}
+        out.append(('group-collision-%s-%s' % (w1, w2), {'steps': {'a': a, 'b': b}, 'outputs': {'success': tmap({'b': ref('steps.b.outputs.success.tok')})}}))
+    return out
+
+
 def list_reference_shapes():
     """lists mixing literals and references at every position (in a step input and in the output tree): a reference is a
     dependency wherever in the list it stands and whatever stands before it"""
